@@ -567,3 +567,27 @@ Proof.
     vm_compute. reflexivity. }
   split; [reflexivity|]. vm_compute. repeat split.
 Qed.
+
+(* ------------------------------------------------------------------ round 4: behind every consumer API (Sem/Consumers.v)
+   The answers of a registered Python predicate queried at the top level reach the consumer with the yielded values; predicates
+   that agree after dropping them are indistinguishable behind plain iteration, YP.evaluate_bounded, list(query) (number of
+   answers, end) and next(query) + close(). *)
+From YP Require Import Sem.Consumers.
+
+Theorem C20_consumers_yield_value_irrelevant : forall (A : Type) (read : st -> A) (r1 r2 : nres),
+  drop r1 = drop r2 ->
+  plain_iteration st A read r1 = plain_iteration st A read r2 /\
+  evaluate_bounded st A (fun _ => read) r1 = evaluate_bounded st A (fun _ => read) r2 /\
+  length (fst (list_query st r1)) = length (fst (list_query st r2)) /\ snd (list_query st r1) = snd (list_query st r2) /\
+  next_then_close st A read r1 = next_then_close st A read r2.
+Proof. exact native_consumers_yield_value_irrelevant. Qed.
+Print Assumptions C20_consumers_yield_value_irrelevant.
+
+(* non-vacuity: q/1 over {a, b, c} yielding True, True, True and yielding False, True, False *)
+Example C20_consumers_nonvacuous :
+  let r1 := native_rows (map row_of q_rows) [true; true; true] [TVar 0] (st0 1) in
+  let r2 := native_rows (map row_of q_rows) [false; true; false] [TVar 0] (st0 1) in
+  drop r1 = drop r2 /\ r1 <> r2 /\
+  evaluate_bounded st (list term) (fun _ x => answer_of 1 x) r1 = [[TAtom (d "a")]; [TAtom (d "b")]; [TAtom (d "c")]] /\
+  evaluate_bounded_stopping st (list term) (fun _ x => answer_of 1 x) r1 = [[TAtom (d "a")]].
+Proof. vm_compute. repeat split. intros H. discriminate H. Qed.
